@@ -39,12 +39,13 @@ func driveH2C(c *ctx) {
 		c.E("h2c.Suite", "suite", name, "dst", hx(dst), "msg", hx(msg), "ok", err == nil, "out", o, "again", again, "vector", vector)
 	}
 	uniform := func(src []byte) {
-		var o, again string
+		var o, again, zrecv string
 		pn := catch(func() {
 			o = hx(secp256k1.NewIdentityPoint().SetUniformBytes(append([]byte{}, src...)).UncompressedBytes())
 			again = hx(secp256k1.NewGeneratorPoint().SetUniformBytes(src).UncompressedBytes())
+			zrecv = hx(new(secp256k1.Point).SetUniformBytes(src).UncompressedBytes()) // a zero-value receiver is simply overwritten
 		})
-		c.E("h2c.Uniform", "in", hx(src), "panic", pn, "out", o, "again", again)
+		c.E("h2c.Uniform", "in", hx(src), "panic", pn, "out", o, "again", again, "zrecv", zrecv)
 	}
 	xmd := func(dst, msg []byte, n int, vector bool) {
 		out := make([]byte, n)
